@@ -221,13 +221,23 @@ def run(ck: Check):
         res = run_impl("c14_impl.py", {"jobs": [{"kind": "chains", "chains": corpus}]})[0]
         for rounds in res:
             check_chain(ck, rounds, tally, streams, "corpus")
-        # the witness of c15_plus_refuted is what the real executor does in round 3 of chain 0
-        st = res[0][2]["sticky"] if len(res[0]) == 3 else {}
-        ck.obligation("witness:c15_plus_refuted-log==real-log",
-                      st.get("assigns") == [] and st.get("reassigns") == [[1, 0, 2, 1, 0], [1, 2, 1, 1, 2]]
-                      and st.get("reverted") == 0
-                      and sorted(map(tuple, st.get("init", []))) == [(0, 1, 2), (0, 1, 3), (0, 1, 4), (1, 1, 0), (1, 1, 1)],
-                      json.dumps(st)[:300])
+        # the witness of c15_plus_refuted is what the real executor does in round 3 of the
+        # [1, 5] chain — as long as the finding reproduces (after a fix of /repo it no longer does)
+        wi = next((i for i, ch in enumerate(corpus) if ch["first"]["ppt"] == [1, 5]), None)
+        if wi is not None and len(res[wi]) == 3:
+            st = res[wi][2]["sticky"]
+            r2 = res[wi][1]["sticky"]
+            reproduces = "out" in st and "out" in r2 and bool(
+                moved_between([0, 1], r2["out"], st["out"]))
+            if reproduces:
+                ck.obligation("witness:c15_plus_refuted-log==real-log",
+                              st.get("assigns") == [] and st.get("reassigns") == [[1, 0, 2, 1, 0], [1, 2, 1, 1, 2]]
+                              and st.get("reverted") == 0
+                              and sorted(map(tuple, st.get("init", []))) == [(0, 1, 2), (0, 1, 3), (0, 1, 4), (1, 1, 0), (1, 1, 1)],
+                              json.dumps(st)[:300])
+            else:
+                ck.log("note: the known stickiness finding no longer reproduces on corpus/C15/unsubscribed_topic.json")
+                ck.extra["known_finding_reproduces"] = False
 
     # ---------------- exhaustive: first round x second rounds
     max_m = ck.n(3, 4)
